@@ -38,13 +38,16 @@ def run(ctx):
                                                    or (a["t"] == "str" and a["s"] == "") for n in c["nodes"]
                                                    for a in list(n["args"]) + [kv[1] for kv in n["kwargs"]])),
         "cases_yielding_none_or_falsy": sum(1 for c in cases if any(y != "t" for n in c["nodes"] for y in n["yvals"])),
+        "hand_built_generator_cases": sum(1 for c in cases if any(n["onames"] for n in c["nodes"])),
         "count_mismatch_cases": sum(1 for c in cases if any(n["nout"] != n["yields"] for n in c["nodes"])),
         "rule": "spec/Lowering.tla!Generate: (1) every DAG with <= MaxN nodes (<= MaxIn inputs per node, any pair of upstream "
                 "outputs, first/last node with 1 or 2 outputs) x 6 ways of mentioning / not mentioning the inputs among static "
                 "positional and keyword arguments (static first, between, after an input name, last, last twice) x static value "
                 "in {7, 0, '', 's', None, False} (graphs <= FullStaticsN nodes; {7, None} up to 3 nodes, None above); (2) a generator with N in GenOuts outputs yielding N-1, N, N+1 values, fed "
                 f"or not by a source, with no consumer / a consumer of one / of two of its outputs; (3) the same with yielded values None / 0 / '' / False "
-                f"(every value, the last value, the surplus value of an N+1 yield, all values of an N-1 yield); constants {consts}; "
+                f"(every value, the last value, the surplus value of an N+1 yield, all values of an N-1 yield); (4) hand-built "
+                f"(graph.Node) generators whose output names differ in length / are un-padded numbers / differ in case, declared "
+                f"in sorted, reversed, rotated order, bound key-sorted as cascade documents; constants {consts}; "
                 "non-trivial = the graph has an edge; graphs are built with fluent.Node/Payload/Action, lowered by graph2job, "
                 "every task run by execute_sequence/run/Memory over a dict-backed shm; TLC evaluates Lowering!Post",
         "clauses": ["tasks_are_not_the_nodes", "edges_are_not_the_inputs", "outputs_are_not_the_declared",
